@@ -237,7 +237,67 @@ def run_nocache(case):
     return r
 
 
-RUNNERS = {'closure': run_closure, 'sequences': run_sequences, 'loader': run_loader, 'default': run_default,
+# ---------------------------------------------------------------- a caller: the chains of BOLFI.sample
+def _chain_sim(mu, batch_size=1, random_state=None):
+    return mu + 0.1 * random_state.randn(batch_size, 1).reshape(np.shape(mu))
+
+
+def _chain_seeds(master, n_chains, evidence_mu):
+    """The seeds BOLFI.sample hands to its MCMC chains (recorded at elfi.methods.mcmc.metropolis)."""
+    import elfi
+    import elfi.methods.mcmc as mcmc
+    from .. import models
+    models.native_client()
+    m = elfi.ElfiModel(name='c15chains')
+    mu = elfi.Prior('uniform', 0, 1, model=m, name='mu')
+    sim = elfi.Simulator(_chain_sim, mu, observed=np.array([0.5]), model=m, name='sim')
+    d = elfi.Distance('euclidean', sim, model=m, name='d')
+    ev = {'mu': np.asarray(evidence_mu, dtype=float), 'd': np.linspace(0.05, 1.0, len(evidence_mu))}
+    bolfi = elfi.BOLFI(d, batch_size=1, initial_evidence=ev, bounds={'mu': (-1, 2)}, seed=master)
+    seen = []
+    real = mcmc.metropolis
+
+    def rec(*a, seed=0, **kw):
+        seen.append(int(seed))
+        return real(*a, seed=seed, **kw)
+    mcmc.metropolis = rec
+    import contextlib
+    import io
+    try:
+        with contextlib.redirect_stdout(io.StringIO()):
+            bolfi.sample(6, n_chains=n_chains, algorithm='metropolis', sigma_proposals={'mu': 0.1},
+                         n_evidence=len(evidence_mu))
+    finally:
+        mcmc.metropolis = real
+    return seen
+
+
+@guarded('C15')
+def run_chains(case):
+    """The seed of chain number i depends only on (master seed, i): the same for every evidence set, whatever candidate
+    starting points (outside the prior support: log posterior -inf) had to be skipped before; chains differ pairwise."""
+    inside = [0.50, 0.45, 0.55, 0.40, 0.60, 0.35, 0.65, 0.30, 0.70, 0.25, 0.75, 0.20]
+    base = None
+    n = 0
+    for bad_at in case['unusable']:
+        ev = list(inside)
+        for j, i in enumerate(bad_at):
+            ev[i] = -0.5 if j % 2 == 0 else 1.5
+        got = _chain_seeds(case['seed'], case['n_chains'], ev)
+        n += 1
+        if len(got) != case['n_chains'] or len(set(got)) != len(got):
+            return bad('C15:bolfi-chains:seeds-not-pairwise-different', {'case': case, 'unusable': bad_at, 'seeds': got})
+        if base is None:
+            base = got
+        elif got != base:
+            return bad('C15:bolfi-chains:chain-seed-depends-on-skipped-starting-points',
+                       {'case': case, 'unusable': bad_at, 'seeds': got, 'seeds_with_all_points_usable': base})
+    r = ok(outcome=digest(base), chain_seed_runs=n)
+    r.update(evals=n, distinct=n)
+    return r
+
+
+RUNNERS = {'chains': run_chains, 'closure': run_closure, 'sequences': run_sequences, 'loader': run_loader, 'default': run_default,
            'nocache': run_nocache}
 
 
@@ -253,6 +313,7 @@ def run(ctx):
     ctx.rule = ('closure: BFS over index requests per (seed,high) with canonical cache state, all indices -2..high+1 '
                 'requested in every reachable state; sequences: all index sequences up to depth d without state '
                 'merging; loader: all batch-index sequences through ComputationContext+RandomStateLoader; '
+                'bolfi-chains: master seed x number of chains x which of the best evidence points are unusable as chain starts; '
                 'non-trivial = every case (each exercises a cache with >=1 earlier request); distinct by case content')
     cases = [{'kind': 'closure', 'seed': s, 'high': h, 'max_depth': 8} for s in seeds for h in highs]
     ctx.run_cases(run_closure, cases, 'closure')
@@ -270,6 +331,9 @@ def run(ctx):
             triples = [[s, high, i] for s in (s1, s2) for i in (0, 1, 2)]
             cases.append({'kind': 'nocache', 'triples': triples, 'depth': 3 if q else 4})
     ctx.run_cases(run_nocache, cases, 'nocache-interleaved', chunksize=1, timeout=600)
+    cases = [{'kind': 'chains', 'seed': s, 'n_chains': nc, 'unusable': [[], [0], [1, 2], [0, 2, 3]]}
+             for s in seeds[: (2 if q else 4)] for nc in ((4,) if q else (2, 4))]
+    ctx.run_cases(run_chains, cases, 'bolfi-chains', chunksize=1, timeout=600)
     if ctx.cnt.get('not_closed'):
         ctx.exhaustive = False
     ctx.extra['explanation'] = ('states = reachable canonical cache states summed over (seed, high); transitions = '
